@@ -36,6 +36,9 @@ def cases(ctx):
     holder = {"title": "Holder", "type": "object", "properties": {k.lower(): {"$ref": "#/definitions/" + k} for k in lat}, "definitions": lat}
     for st in settings[:2] + [{"derives": ["::altser::Serialize", "::altser::Deserialize", "Eq"]}, {"derives": ["::std::hash::Hash", "::std::fmt::Debug"]}]:
         out.append(("lattice", {"settings": st, "calls": [{"root": holder}]}))
+    import corpus
+    for cid, cdoc, _ in corpus.documents():
+        if cid.startswith(("hand:", "file:")): out.append(("corpus:" + cid, {"settings": settings[len(cid) % 2], "calls": [{"root": cdoc}]}))
     n = 400 if ctx.tier == "thorough" else 60
     for k in range(n):
         feats = set(gen.DEFAULT_FEATURES)
